@@ -111,7 +111,19 @@ func TestC14(t *testing.T) {
 			r.Inconclusive("reference replay failed: %v", err)
 			return
 		}
-		// the recording itself must be reproduced by the replay (no hidden out-of-band writes in the harness)
+		// a second replay in this very process: any difference between two replays of the same tape is non-determinism
+		_, ref2, err := Replay(tf, nil)
+		if err != nil {
+			r.Inconclusive("second reference replay failed: %v", err)
+			return
+		}
+		before := r.Violations()
+		compare(r, cid, envSpec{name: "same-process-second-replay"}, ref, ref2, tf)
+		r.Count("replicas_compared", 1)
+		if r.Violations() > before {
+			continue
+		}
+		// the recording itself must be reproduced by the (deterministic) replay: otherwise the harness wrote state outside ABCI
 		if got, want := ref[len(ref)-1].AppHash, fmt.Sprintf("%x", sc.FinalHash); got != want {
 			r.Inconclusive("%s: replay of the tape does not reproduce the recorded chain (harness wrote state outside ABCI): %s vs %s", cid, got, want)
 			return
